@@ -321,6 +321,18 @@ P["C16"] = {
     ],
 }
 
+IOM = "io::verif_io::"
+P["C10"] = {
+    "level_text": "WORK IN PROGRESS: step contracts of the composite operations from an arbitrary intermediate state.",
+    "level_note": "see DESIGN.md",
+    "functions": [{"file": "src/io/mod.rs", "fn": r"fn poll_inner\(self: Pin<&mut Self>, ctx: &mut task::Context<'_>\) -> Poll<io::Result<B>> \{\n        // SAFETY: not moving `Future`.\n        let this = unsafe \{ Pin::into_inner_unchecked\(self\) \};\n        let mut write = unsafe \{ Pin::new_unchecked\(&mut this.write\) \};\n        match write.as_mut\(\).poll\(ctx\) \{\n            Poll::Ready\(Ok\(\(_, 0\)\)\) => Poll::Ready\(Err\(io::ErrorKind::WriteZero.into\(\)\)\),\n            Poll::Ready\(Ok\(\(mut buf"}],
+    "trusted_base": OPTRUST,
+    "assumptions": [],
+    "obligations": [
+        K("c10.write_all.step", "io_mod.rs", IOM + "c10_write_all_step", "WriteAll::poll_inner from an arbitrary (skip, offset) with the inner write Done(n): n==0 => WriteZero; skip+n==len => Ok(original buffer); else exactly one WRITE of bytes [skip+n, len) at offset+n / current position on the same descriptor", ["io::WriteAll::poll_inner"], bounded="buffer length <= 16", tier="thorough"),
+    ],
+}
+
 def main():
     os.makedirs(os.path.join(V, "obligations"), exist_ok=True)
     for pid, p in P.items():
